@@ -618,7 +618,14 @@ func (e *exec) divergence(vals []string, path string) string {
 			return "diverges-at=" + bareKind(t) + " after=" + prev
 		}
 		pos += len(part)
-		prev = t.kindName()
+		prev = bareKind(t)
+		if len(t.Cons) > 0 {
+			var n []string
+			for _, c := range t.Cons {
+				n = append(n, c.Name)
+			}
+			prev += "<" + strings.Join(n, ";") + ">"
+		}
 	}
 	return "diverges-at=past-end after=" + prev
 }
@@ -727,6 +734,8 @@ func unescapedView(raw string, unescape bool) (string, bool) {
 	return raw, true
 }
 
+const sampleEvery = 1009
+
 var cfgs = func() []config {
 	var out []config
 	for i := 0; i < 8; i++ {
@@ -735,7 +744,7 @@ var cfgs = func() []config {
 	return out
 }()
 
-func runPattern(pi int, p *patternX, l *core.Local, vs vset, sampleEvery int) {
+func runPattern(pi int, p *patternX, l *core.Local, vs vset, sample func(string, any)) {
 	gen := genericPaths(p.Sigma, p.GenN)
 	der := derivedPaths(p)
 	derURIs := make([]string, len(der))
@@ -807,8 +816,8 @@ func runPattern(pi int, p *patternX, l *core.Local, vs vset, sampleEvery int) {
 					if status != 200 {
 						l.Outcome(fmt.Sprintf("ran-but-status=%d", status))
 					}
-					if sampleEvery > 0 && (pi*31+idx)%sampleEvery == 0 && ci == 1 {
-						m := map[string]any{"pattern": p.Text, "reg": regName(use), "config": cfg.String(), "request": e.uri[len(uriPrefix):], "class": e.cls}
+					if sample != nil && (pi*31+idx)%sampleEvery == 0 && ci == 1 {
+						m := map[string]any{"pattern": p.Text, "reg": regName(use), "config": cfg.String(), "request": e.uri[len(uriPrefix):], "class": "handler ran: " + e.cls}
 						k := 0
 						for _, t := range p.Toks {
 							if t.isParam() {
@@ -816,7 +825,7 @@ func runPattern(pi int, p *patternX, l *core.Local, vs vset, sampleEvery int) {
 								k++
 							}
 						}
-						l.Sample(m)
+						sample(p.Family+" ran", m)
 					}
 					continue
 				}
@@ -839,6 +848,10 @@ func runPattern(pi int, p *patternX, l *core.Local, vs vset, sampleEvery int) {
 				}
 				switch {
 				case definitelyInvalid:
+					if sample != nil && (pi*31+idx)%sampleEvery == 0 && ci == 1 {
+						sample(p.Family+" rejected", map[string]any{"pattern": p.Text, "reg": regName(use), "config": cfg.String(), "request": e.uri[len(uriPrefix):],
+							"class": fmt.Sprintf("handler did not run, status %d; reference: only constraint-violating values fill the pattern", status)})
+					}
 					l.Outcome(fmt.Sprintf("not-run status=%d constraint-violating-request", status))
 				default:
 					l.Outcome(fmt.Sprintf("not-run status=%d", status))
@@ -875,9 +888,9 @@ func main() {
 		fmt.Println(fam)
 		return
 	}
-	limit := 14 * time.Minute
+	limit := 40 * time.Minute
 	if r.Quick() {
-		limit = 150 * time.Second
+		limit = 10 * time.Minute
 	}
 	if *limitFlag > 0 {
 		limit = *limitFlag
@@ -890,9 +903,15 @@ func main() {
 		deadline := r.Start.Add(limit)
 		l := core.NewLocal()
 		vs := vset{}
-		sampleEvery := 0
-		if r.Worker == 0 {
-			sampleEvery = 4001
+		var sample func(string, any)
+		if r.Worker == 0 { // only one worker samples: one case per family and kind, in exploration order
+			want := map[string]bool{"A3 ran": true, "A5 ran": true, "B ran": true, "B rejected": true, "C ran": true, "U ran": true}
+			sample = func(k string, v any) {
+				if want[k] {
+					want[k] = false
+					r.P.Samples = append(r.P.Samples, v)
+				}
+			}
 		}
 		for i := range pats {
 			if !r.Shard(i) {
@@ -903,7 +922,7 @@ func main() {
 				l.Add("patterns_skipped_by_cap", 1)
 				continue
 			}
-			runPattern(i, pats[i], l, vs, sampleEvery)
+			runPattern(i, pats[i], l, vs, sample)
 		}
 		r.Merge(l.P)
 		b, err := json.Marshal(vs)
